@@ -14,6 +14,229 @@ const PATHS: &[&str] = &[
 const HOST_PATTERNS: &[&str] = &["example.com", "*.example.com", "a.*", "*:8080", "localhost", "*.com", "ex*le.com", "é.example.com"];
 const HOSTS: &[&str] = &["", "example.com", "a.example.com", "a.b.example.com", "example.com:8080", "localhost", "other.org", "a.x", "é.example.com", "EXAMPLE.COM"];
 
+// ---------------------------------------------------------------------------------------------
+// large applications and long values
+
+#[derive(Clone, Copy, PartialEq, Debug)]
+enum Pos {
+    First,
+    Middle,
+    Last,
+    Absent,
+}
+const POSITIONS: [Pos; 4] = [Pos::First, Pos::Last, Pos::Absent, Pos::Middle];
+
+/// `n` filler items with `item` put first / in the middle / last / nowhere.
+fn place<T>(n: usize, pos: Pos, mut fill: impl FnMut(usize) -> T, item: T) -> Vec<T> {
+    let at = match pos {
+        Pos::First => Some(0),
+        Pos::Middle => Some(n / 2),
+        Pos::Last => Some(n),
+        Pos::Absent => None,
+    };
+    let mut v = Vec::with_capacity(n + 1);
+    let mut item = Some(item);
+    for i in 0..n {
+        if Some(i) == at {
+            v.push(item.take().unwrap());
+        }
+        v.push(fill(i));
+    }
+    if Some(n) == at {
+        v.push(item.take().unwrap());
+    }
+    v
+}
+
+/// Filler route patterns: pairwise different, none matches `/target/x`; `/r<i>/zz` matches exactly the filler `i` when
+/// `i % 3 == 1`, `/zz/q<i>` when `i % 3 == 2`.
+fn fill_route(i: usize) -> String {
+    match i % 3 {
+        0 => format!("/r{}", i),
+        1 => format!("/r{}/*", i),
+        _ => format!("*/q{}", i),
+    }
+}
+
+/// Filler host patterns: none matches `t.example.com`; `n<i>.example.org` / `x.n<i>.net` / `n<i>.x` match the filler `i`.
+fn fill_host(i: usize) -> String {
+    match i % 3 {
+        0 => format!("n{}.example.org", i),
+        1 => format!("*.n{}.net", i),
+        _ => format!("n{}.*", i),
+    }
+}
+
+fn request_bytes(rng: &mut Rng, host: &str, path: &str, ws: bool) -> Vec<u8> {
+    let method = if ws { "GET" } else { *rng.pick(&["GET", "GET", "POST", "DELETE"]) };
+    let mut b = format!("{} {} HTTP/1.1\r\n", method, path);
+    if !host.is_empty() {
+        b += &format!("{}: {}\r\n", rng.pick(&["Host", "host"]), host);
+    }
+    if ws {
+        b += "Upgrade: websocket\r\nConnection: Upgrade\r\n";
+    }
+    if method == "POST" {
+        b += "Content-Length: 0\r\n";
+    }
+    b += "\r\n";
+    b.into_bytes()
+}
+
+/// Applications with MANY host sub-apps and MANY routes (hundreds to thousands): the host that matches is the first /
+/// the last / in the middle / absent, and so is the matching route inside it, inside the default sub-app, and among
+/// the WebSocket routes; requests also aim at fillers at random indices.
+fn big_apps(out: &mut Out, thorough: bool, rng: &mut Rng) {
+    let counts: &[usize] = if thorough { &[100, 128, 255, 256, 257, 1000, 1024, 4096] } else { &[100, 257, 1000] };
+    let rounds = 2;
+    let mut app_i = 0usize;
+    for round in 0..rounds {
+        for (hi, &nhosts) in counts.iter().enumerate() {
+            for (pi, &hpos) in POSITIONS.iter().enumerate() {
+                app_i += 1;
+                // sizes and positions of the other lists rotate against the host dimension
+                let nroutes = counts[(hi + pi + round) % counts.len()];
+                let ndefault = counts[(hi + 2 * pi + round + 1) % counts.len()];
+                let nws = [3, counts[(pi + round) % counts.len()]][(app_i / 2) % 2];
+                let rpos = POSITIONS[(pi + hi + round + 1) % 4];
+                let dpos = POSITIONS[(2 * pi + hi + round) % 4];
+                let wpos = POSITIONS[(pi + 3 * hi + round + 2) % 4];
+                let dwpos = POSITIONS[(3 * pi + hi + round + 3) % 4];
+                TOKIO_EVERY.with(|e| e.set(if app_i % 4 == 1 { 1 } else { 0 }));
+                let mut id = 0u32;
+                let mut next = || {
+                    id += 1;
+                    id
+                };
+                let target_route = *rng.pick(&["/target/x", "/target/*", "*/x", "/*", "*", "/t*t/x"]);
+                let mk_routes = |n: usize, pos: Pos, off: usize, shadow: bool, next: &mut dyn FnMut() -> u32| -> Vec<(String, String, String)> {
+                    let mut pats = place(n, pos, |i| fill_route(off + i), target_route.to_string());
+                    if shadow {
+                        // a later route that matches too: never the one chosen while an earlier one matches
+                        pats.push("/*".to_string());
+                    }
+                    pats.into_iter().map(|p| (p, format!("i{}", next()), "0".to_string())).collect()
+                };
+                let mk_ws = |n: usize, pos: Pos, off: usize, next: &mut dyn FnMut() -> u32| -> Vec<(String, String)> {
+                    place(n, pos, |i| fill_route(off + i), "/target/*".to_string()).into_iter().map(|p| (p, format!("{}", next()))).collect()
+                };
+                let target_host = *rng.pick(&["t.example.com", "*.example.com", "t.*", "t.ex*le.com"]);
+                let shadow = rng.chance(1, 2);
+                let target_sub = sub_spec(target_host, &mk_routes(nroutes, rpos, 0, shadow, &mut next), &mk_ws(nws, wpos, 0, &mut next));
+                let mut subs: Vec<String> = Vec::new();
+                let fillers: Vec<String> = (0..nhosts)
+                    .map(|i| {
+                        // fillers answer everything (`/*`) or nothing: a request wrongly routed to one is seen
+                        let routes: Vec<(String, String, String)> = if i % 2 == 0 { vec![("/*".to_string(), format!("i{}", next()), "0".to_string())] } else { vec![] };
+                        let ws: Vec<(String, String)> = if i % 5 == 0 { vec![("*".to_string(), format!("{}", next()))] } else { vec![] };
+                        sub_spec(&fill_host(i), &routes, &ws)
+                    })
+                    .collect();
+                let mut fillers = fillers.into_iter();
+                subs.extend(place(nhosts, hpos, |_| fillers.next().unwrap(), target_sub));
+                if rng.chance(1, 2) {
+                    // a second sub-app whose host matches as well: it must never be consulted
+                    subs.push(sub_spec("*.example.com", &[("*".to_string(), format!("i{}", next()), "0".to_string())], &[("*".to_string(), format!("{}", next()))]));
+                }
+                subs.push(sub_spec("*", &mk_routes(ndefault, dpos, 100_000, rng.chance(1, 3), &mut next), &mk_ws(3, dwpos, 100_000, &mut next)));
+                let cfg = subs.join("|");
+                out.count(&format!("big:hosts={} host-position={:?}", nhosts, hpos));
+                out.count(&format!("big:routes={} route-position={:?}", nroutes, rpos));
+                out.count(&format!("big:default-routes={} route-position={:?}", ndefault, dpos));
+                let j = |rng: &mut Rng, n: usize| rng.below(n as u64 + 2) as usize;
+                let mut reqs: Vec<(String, String, bool)> = vec![
+                    ("t.example.com".into(), "/target/x".into(), false),
+                    ("t.example.com".into(), "/target/x?q=/r1/zz".into(), false),
+                    ("t.example.com".into(), "/target/x".into(), true),
+                    ("t.example.com".into(), "/nothing/here".into(), false),
+                    ("t.example.com".into(), "/nothing/here".into(), true),
+                    ("".into(), "/target/x".into(), false),
+                    ("zzz.invalid".into(), "/target/x".into(), rng.chance(1, 2)),
+                ];
+                // fillers at random indices (also one past the end): hosts, routes of the target, routes of the default
+                for _ in 0..2 {
+                    let h = j(rng, nhosts);
+                    let host = match h % 3 { 0 => format!("n{}.example.org", h), 1 => format!("x.n{}.net", h), _ => format!("n{}.x", h) };
+                    reqs.push((host, "/target/x".into(), rng.chance(1, 3)));
+                    let r = j(rng, nroutes);
+                    reqs.push(("t.example.com".into(), if r % 3 == 2 { format!("/zz/q{}", r) } else { format!("/r{}/zz", r) }, rng.chance(1, 4)));
+                    let d = 100_000 + j(rng, ndefault);
+                    reqs.push((if rng.chance(1, 2) { "t.example.com".into() } else { "".into() }, if d % 3 == 2 { format!("/zz/q{}", d) } else { format!("/r{}/zz", d) }, false));
+                }
+                // the last filler exactly
+                reqs.push(("t.example.com".into(), format!("/r{}/zz", (nroutes - 1) / 3 * 3 + 1), false));
+                for (host, path, ws) in reqs {
+                    let bytes = request_bytes(rng, &host, &path, ws);
+                    emit_conn(out, &cfg, false, &[format!("d{}", hex(&bytes))], ("127.0.0.1", 40000), &bytes, if ws { "big-ws" } else { "big-http" }, true);
+                }
+            }
+        }
+    }
+    TOKIO_EVERY.with(|e| e.set(0));
+}
+
+/// Long Host values, long paths, long patterns (hundreds of bytes to 64 KiB; up to 1 MiB in the thorough tier): a wildcard
+/// absorbs the long part, or pattern and value are the same long literal, or differ in their last character.
+fn long_values(out: &mut Out, thorough: bool, rng: &mut Rng) {
+    let mut lens: Vec<usize> = vec![100, 255, 256, 257, 1000, 1024, 4096, 8192, 8193, 65_536];
+    if thorough {
+        lens.extend_from_slice(&[16_384, 65_537, 262_144, 1 << 20]);
+    }
+    for (li, &l) in lens.iter().enumerate() {
+        TOKIO_EVERY.with(|e| e.set(if l <= 8193 && li % 2 == 0 { 1 } else { 0 }));
+        let unit = ["a", "é", "ab/", "x."][li % 4];
+        let long: String = unit.repeat(l / unit.len());
+        let long_path = format!("/{}", long);
+        let long_host = format!("{}.example.com", long.replace('/', "-"));
+        let host_sub = sub_spec(
+            "*.example.com",
+            &[("/files/*".into(), "i1".into(), "0".into()), (long_path.clone(), "i2".into(), "0".into()), ("*.html".into(), "i3".into(), "0".into())],
+            &[("/ws/*".into(), "4".into())],
+        );
+        let lit_host_sub = sub_spec(&long_host.replace(".example.com", ".example.org"), &[("/*".into(), "i5".into(), "0".into())], &[("*".into(), "6".into())]);
+        let default = sub_spec("*", &[("/files/*/end".into(), "i7".into(), "0".into()), (format!("{}*", long_path), "i8".into(), "0".into())], &[(long_path.clone(), "9".into())]);
+        let cfg = format!("{}|{}|{}", lit_host_sub, host_sub, default);
+        out.count(&format!("long:length={}", l));
+        let lit_host = long_host.replace(".example.com", ".example.org");
+        let mut near = long_path.clone();
+        near.pop();
+        near.push('Z');
+        let mut near_host = lit_host.clone();
+        near_host.pop();
+        near_host.push('x');
+        let reqs: Vec<(String, String, bool)> = vec![
+            // a wildcard in the host pattern absorbs a long label; literal long host; the same with another last character
+            (long_host.clone(), "/files/a".into(), false),
+            (lit_host.clone(), "/anything".into(), false),
+            (lit_host.clone(), "/anything".into(), true),
+            (near_host.clone(), "/files/a".into(), false),
+            // a wildcard in the route absorbs a long path; long literal route; near miss; long query (never routed on)
+            ("a.example.com".into(), format!("/files/{}", long), false),
+            ("a.example.com".into(), format!("/files/{}/end", long), false),
+            ("a.example.com".into(), long_path.clone(), false),
+            ("a.example.com".into(), near.clone(), false),
+            ("a.example.com".into(), format!("{}.html", long_path), false),
+            ("a.example.com".into(), format!("/files/a?{}", long), false),
+            ("a.example.com".into(), format!("/none?{}", long_path), false),
+            ("a.example.com".into(), format!("/ws/{}", long), true),
+            ("".into(), format!("{}/more", long_path), false),
+            ("".into(), long_path.clone(), true),
+            ("".into(), near.clone(), true),
+            (long_host.clone(), long_path.clone(), false),
+        ];
+        for (ri, (host, path, ws)) in reqs.into_iter().enumerate() {
+            // above 8 KiB the case lines get large (pattern, request and dispatched request are all in them): every
+            // third request only, rotating with the length
+            if l > 8193 && (ri + li) % 3 != 0 {
+                continue;
+            }
+            let bytes = request_bytes(rng, &host, &path, ws);
+            emit_conn(out, &cfg, false, &[format!("d{}", hex(&bytes))], ("127.0.0.1", 40000), &bytes, if ws { "long-ws" } else { "long-http" }, true);
+        }
+    }
+    TOKIO_EVERY.with(|e| e.set(0));
+}
+
 pub fn gen(out: &mut Out, thorough: bool, seed: u64) {
     let mut rng = Rng::new(seed ^ 0xC04);
     let napps = if thorough { 20_000 } else { 1_200 };
@@ -67,5 +290,7 @@ pub fn gen(out: &mut Out, thorough: bool, seed: u64) {
             emit_conn(out, &cfg, false, &[format!("d{}", hex(&bytes))], ("127.0.0.1", 40000), &bytes, if ws { "ws" } else { "http" }, nsub >= 1);
         }
     }
+    big_apps(out, thorough, &mut rng);
+    long_values(out, thorough, &mut rng);
     tokio_conn_cases(out);
 }
